@@ -33,6 +33,7 @@ def setup(wd):
 
     def body(args, stdin, stdout, stderr):
         stdout.write("O1")
+        stderr.write(f"N{len(args)}")
         stderr.write("E1")
         if stdin is not None:
             try:
@@ -96,9 +97,15 @@ def run(ctx, scn):
             ops_txt.append(f"{s} {files[o['file']]}")
         else:
             ops_txt.append(s)
-    stage = {"proc": "sh -c 'printf O1; printf E1 >&2; cat'", "talias": "va", "ualias": "vu"}[cfg["kind"]]
+    # every stage also reports how many arguments it received (a redirect operator must never turn
+    # into an argument): "N<count>" on stderr
+    stage = {"proc": "sh -c 'printf O1; printf E1 >&2; printf N$# >&2; cat' sh", "talias": "va", "ualias": "vu"}[cfg["kind"]]
     line = stage + (" " + " ".join(ops_txt) if ops_txt else "")
     if cfg["piped"]:
+        if scn.get("mid"):
+            # a three-stage pipeline: what the first stage sends into the pipe must travel through the
+            # middle stage to the last one
+            line += " | sh -c 'printf \"M[\"; cat; printf \"]\"'"
         line += " | sh -c 'printf \"P[\"; cat; printf \"]\"'"
     src = f"__r = $({line})\n" if cfg["captured"] else f"![{line}]\n"
     t1, t2 = os.path.join(base, "term1"), os.path.join(base, "term2")
@@ -136,12 +143,14 @@ def run(ctx, scn):
     places = {"cap": g.get("__r") or "", "term1": open(t1, errors="replace").read(), "term2": open(t2, errors="replace").read(),
               "f1": open(files["f1"], errors="replace").read() if os.path.exists(files["f1"]) else "", "f2": open(files["f2"], errors="replace").read() if os.path.exists(files["f2"]) else ""}
     if error and ("XonshError" in error or "SyntaxError" in error):
-        obs = {"out": "error", "err": "error", "error": True, "msg": error}
+        obs = {"out": "error", "err": "error", "error": True, "msg": error, "extra_args": 0}
     elif error:
-        obs = {"out": "exception", "err": "exception", "error": True, "msg": error}
+        obs = {"out": "exception", "err": "exception", "error": True, "msg": error, "extra_args": 0}
     else:
         # an input file's content ("X") travels with stdout; ignore the "X" prefix logic for a file that was read
         obs = {"out": _where("O1", places), "err": _where("E1", places), "error": False, "msg": ""}
+        m = re.search(r"N(\d+)", "".join(places.values()))
+        obs["extra_args"] = int(m.group(1)) if m else -1
     obs["line"] = src.strip().replace(base + "/", "")
     shutil.rmtree(base, ignore_errors=True)
     return {"cfg": cfg, "steps": [{"cmd": "run", "cfg": cfg, "obs": obs}]}
